@@ -1,6 +1,7 @@
 """sx engine: symbolic context (Sym), concrete context (Concrete), DFS explorer."""
 from __future__ import annotations
 
+import asyncio
 import time
 import traceback
 import z3
@@ -658,7 +659,7 @@ class Explorer:
                 continue
             except HarnessError:
                 raise
-            except Exception as e:  # noqa
+            except (Exception, asyncio.CancelledError) as e:  # noqa
                 site, detail = f"unexpected:{type(e).__name__}", repr(e)
             if site is None and cc.failed:
                 site, detail = cc.failed[0], "found by concrete probing after an inconclusive symbolic exploration"
@@ -684,7 +685,8 @@ class Explorer:
                 raise HarnessError(f"CheckFailed in symbolic mode: {e}")
             except HarnessError:
                 raise
-            except Exception as e:  # unexpected exception from the code under test
+            except (Exception, asyncio.CancelledError) as e:  # unexpected exception from the code under test (a cancellation
+                # escaping a task the scenario awaits is one too)
                 sym.unexpected(e, traceback.format_exc(limit=8))
                 raise PathAbort()
             model = sym.finish()
